@@ -1,7 +1,7 @@
 """Shared by C01/C05: running real `bob dev` builds of generated projects over
 edit histories, parsing decisions, comparing results with clean builds, and
 rendering the history for the Coq model (BobV.Builder.Model)."""
-import copy, hashlib, os, re, shutil, stat, subprocess, sys, time
+import json, copy, hashlib, os, re, shutil, stat, subprocess, sys, time
 from vlib import proj, core, coqlit as L
 from props.c02 import edit as c02_edit
 
@@ -243,7 +243,7 @@ class Interner:
         return self.d[key]
 
 
-def model_project(dumped, ws, paths, digs):
+def model_project(dumped, ws, paths, digs, desc=None):
     """Coq literal of the project (list stepdef in dependency order) from the dump of the real
     package tree and the real workspace directories; None if it contains something the model
     does not cover (invalid args are skipped like the builder does)."""
@@ -306,6 +306,13 @@ def model_project(dumped, ws, paths, digs):
         used.add(wsdir)
         dep_dirs = [steps[d][0] for d in deps if d in steps]
         dkey = (st["vid"], wsdir, tuple(dep_dirs)) if kind == "build" else (st["vid"],)
+        if kind == "checkout" and desc is not None:
+            # what an import SCM copies is an input of the checkout that its Variant-Id does not cover: the model's step
+            # definition (which fixes the step's output) has to change when the generated source files change
+            rname = next((pk[p_]["recipe"] for p_ in pk if key_of(p_, "checkout") == k), None)
+            src = (desc["recipes"].get(rname) or {}).get("_sources")
+            if src:
+                dkey = dkey + (json.dumps(src, sort_keys=True),)
         klit = {"checkout": "(KCheckout %s)" % L.B(st["deterministic"]), "build": "KBuild", "package": "KPackage"}[kind]
         lits.append("{| sd_path := %d; sd_kind := %s; sd_d := %d; sd_deps := %s |}" % (
             paths(wsdir), klit, digs(dkey), L.lst([str(paths(x)) for x in dep_dirs]) if dep_dirs else "(@nil N)"))
